@@ -183,6 +183,10 @@ class ASTTypeBuilder:
 
         name = cast(NamedType, type_).name
         if name in _DEFAULT_TYPES_MAP:
+            # Specified types are never modified but an extension of the wrong
+            # kind is still an error.
+            if isinstance(type_, ScalarType):
+                self._collect_extensions(name, _ast.ScalarTypeExtension)
             return type_
 
         try:
